@@ -58,7 +58,9 @@ var (
 		// pairs that differ only in a token go/ast encodes as position validity
 		"g(b...)", "g(b)", "func() { type T = int }", "func() { type T int }", "func() { var (\n\tv int\n) }", "func() { var v int }",
 		// compound code containing identifiers spelled like the metavariables; generic instantiations
-		"g(x)", "g(z)", "x + 1", "z + 1", "Pair[int, string]", "p.List[int]"}
+		"g(x)", "g(z)", "x + 1", "z + 1", "Pair[int, string]", "p.List[int]",
+		// pairs that differ only inside braces (abbreviated by summary printers)
+		"T{1, 2}", "T{3, 4}", "func() int { return 1 }", "func() int { return 2 }"}
 	c02IdentFill = []string{"a", "b", "x", "n", "q"}
 	c02TypeFill  = []string{"int", "b.T", "[]int", "x", "q", "n"}
 )
